@@ -152,6 +152,10 @@ pub fn drain_adv(sim: &mut Sim, env: &mut Env, rng: &mut StdRng, interval: u64, 
             }
             if env.answer_filter(sim, i, interval) {
                 any = true;
+                // the last hashes answer once more, late and shorter (seed C10-8)
+                if rng.gen_bool(0.3) {
+                    env.late_short_hashes(sim, i, rng);
+                }
             }
             if rng.gen_bool(0.3) {
                 // the block of a matched entry before anybody has proved it
